@@ -45,7 +45,12 @@ class StructureReference(Field):
             if isinstance(value, (Structure,))
             else value
         )
-        newval = self._newclass(**extracted_values)
+        try:
+            newval = self._newclass(**extracted_values)
+        except (TypeError, ValueError) as e:
+            # the embedded class's own message names only ITS field ('StructureReference_0.b: ...'):
+            # put the path of this field in front
+            raise e.__class__(f"{self._name}: {e}") from e
         super().__set__(instance, newval)
 
     def __serialize__(self, value):
